@@ -41,6 +41,15 @@ class LieType(ABC):
         self._embedding = torch.Size([embedding]) # Embedding dimension
         self._manifold  = torch.Size([manifold])  # Manifold dimension
 
+    def __copy__(self):
+        return self   # ltypes are compared by identity: a copy of a LieTensor keeps the module-level singleton
+
+    def __deepcopy__(self, memo):
+        return self
+
+    def __reduce__(self):
+        return (_ltype_singleton, (type(self).__name__,))
+
     @property
     def dimension(self) -> torch.Size:
         return self._dimension
@@ -773,6 +782,12 @@ SE3_type, se3_type = SE3Type(), se3Type()
 Sim3_type, sim3_type = Sim3Type(), sim3Type()
 RxSO3_type, rxso3_type = RxSO3Type(), rxso3Type()
 liegroup = [SO3_type, SE3_type, Sim3_type, RxSO3_type]
+
+
+def _ltype_singleton(name):
+    '''The module-level instance of the LieType class called ``name`` (used when unpickling).'''
+    return {type(t).__name__: t for t in (SO3_type, so3_type, SE3_type, se3_type,
+            Sim3_type, sim3_type, RxSO3_type, rxso3_type)}[name]
 liealgebra = [so3_type, se3_type, sim3_type, rxso3_type]
 
 class LieTensor(Tensor):
